@@ -3,6 +3,18 @@
 import json, os
 
 CLAIMS = {
+ "C02": {
+  "text": "Decides determinism under every schedule by enumeration of every nondeterminism source in essential-vm and essential-check: no unsafe code (so parallel closures share state only through Sync types), every rayon consumer listed with its resolved output type and required to be order-preserving, no iteration over HashMap/HashSet, a shared-state inventory (no locks/atomics/cells/channels/thread-locals; the single OnceLock's initialiser captures only the shared solutions), no ambient inputs (time, env, thread identity, pool size, randomness, I/O, addresses), and the shared cache map only touched outside the parallel section. Since the enumeration is over the type-checked program, it covers all schedules and pool sizes, which no finite set of runs does.",
+  "note": "Trusted: rayon's ordering contract for collect/partition/unzip into Vec/BTreeMap; Rust's Send/Sync checking; caller-supplied traits are deterministic. Not decided: equality with a sequential reference evaluation as a behavioural statement.",
+  "technique": "static analysis: whole-program enumeration of nondeterminism sources (resolved rayon consumers, unordered iteration, shared-state types, ambient calls) over MIR and type facts",
+  "design_ref": "3/C02",
+ },
+ "C10": {
+  "text": "Decides the structural clauses of Compute: deterministic index-ordered join (rayon consumer into Vec, first error by index), the fork guarded by breadth >= 1 and depth < MAX_COMPUTE_DEPTH = 1, the child's initial state table (pc+1, parent stack clone + one guarded push of the index, fresh memory, parent-memory snapshot, cloned repeat/cache/access/op accessor, same gas limit and state), the join (one alloc of the summed child lengths dominating all stores, stores in result order at a pointer starting at the old length and advancing by each child's length, pc = max, halt = disjunction, gas = saturating sum, child error propagated first), and that the parent's stack is popped once. Partial claim: `as if run one after another` follows from C02 + these tables informally.",
+  "note": "Bounds of alloc/store are C05; gas limit handling is C07.",
+  "technique": "static analysis: aggregate-field provenance table for the child Vm, dominance and def-use of the join closures, resolved rayon consumer types",
+  "design_ref": "3/C10",
+ },
  "C04": {
   "text": "Decides the structural necessary conditions of order independence: the set address sorts the very slice it hashes and every set-address entry point reaches that leaf; per-solution addresses depend on one solution only (plain content_addr mapped over the solutions); the duplicate-slot detection must span all solutions and be keyed by contract. The last rule is violated on the pinned tree (open known finding K2). Partial claim: equality of verdict/gas/computed mutations under permutation is not decided as a behavioural fact.",
   "note": "Known finding K2 (per-solution duplicate set) is recorded, not repaired: the repair changes which sets validation accepts. Relies on C02 (determinism) for the informal step from structure to behaviour.",
